@@ -21,7 +21,7 @@ BUILTIN = {
     'char16_t': 'qx_char16', 'char32_t': 'qx_char32', 'wchar_t': 'qx_wchar',
     'unsigned': 'unsigned int', 'std::nullptr_t': 'void *', 'nullptr_t': 'void *',
     '__int128': '__int128', 'unsigned __int128': 'unsigned __int128',
-    'char8_t': 'unsigned char',
+    'char8_t': 'unsigned char', '_Bool': '_Bool', 'qx_char16': 'qx_char16', 'qx_char32': 'qx_char32', 'qx_wchar': 'qx_wchar',
 }
 
 INT_SUFFIX = {'int': '', 'unsigned int': 'U', 'long': 'L', 'unsigned long': 'UL',
